@@ -52,6 +52,7 @@ const (
 	LFmtMulti
 	LStdJoin1
 	LUserMulti1
+	LJoinNested
 	// wrappers
 	WMessage
 	WWrap
@@ -84,14 +85,15 @@ const (
 	WUserSafeFmt
 	WHandledDomain
 	WNewfWExtra
+	WUserGlue
 	numKinds
 )
 
 var kindNames = [...]string{"New", "NewfUnsafe", "NewfSafe", "Std", "Pkg", "CtxCanceled", "CtxDeadline", "OsNotExist", "EOF", "Errno", "Unimpl", "Assert",
-	"UserPlain", "UserFmt", "UserSafeFmt", "UserNonComparable", "UserIs", "Proto", "Handled", "HandledMsg", "Join", "StdJoin", "FmtMulti", "StdJoin1", "UserMulti1",
+	"UserPlain", "UserFmt", "UserSafeFmt", "UserNonComparable", "UserIs", "Proto", "Handled", "HandledMsg", "Join", "StdJoin", "FmtMulti", "StdJoin1", "UserMulti1", "JoinNested",
 	"WithMessage", "Wrap", "Wrapf", "NewfW", "WithStack", "WithHint", "WithDetail", "WithSafeDetails", "WithTelemetry", "WithDomain", "WithIssueLink", "WithTags",
 	"WithAssertionFailure", "Mark", "WithSecondary", "HTTPCode", "GrpcCode", "PkgWithMessage", "PkgWithStack", "FmtPrefix", "FmtSuffix", "PathError", "LinkError",
-	"SyscallError", "OpError", "UserPrefix", "UserFull", "UserFmt", "UserSafeFmt", "HandledInDomain", "NewfWExtra"}
+	"SyscallError", "OpError", "UserPrefix", "UserFull", "UserFmt", "UserSafeFmt", "HandledInDomain", "NewfWExtra", "UserGlue"}
 
 func (k Kind) String() string { return kindNames[k] }
 
@@ -100,13 +102,13 @@ var (
 	LibLeaves     = []Kind{LNew, LNewfUnsafe, LNewfSafe, LUnimpl, LAssert}
 	ForeignLeaves = []Kind{LStd, LPkg, LCtxCanceled, LCtxDeadline, LOsNotExist, LEOF, LErrno, LUserPlain, LUserFmt, LUserSafeFmt, LUserNonComparable, LUserIs, LProto}
 	BarrierLeaves = []Kind{LHandled, LHandledMsg}
-	MultiLeaves   = []Kind{LJoin, LStdJoin, LFmtMulti, LStdJoin1, LUserMulti1}
+	MultiLeaves   = []Kind{LJoin, LStdJoin, LFmtMulti, LStdJoin1, LUserMulti1, LJoinNested}
 	SimpleLeaves  = []Kind{LNew, LNewfUnsafe, LStd, LUserPlain}
 	BranchLeaves  = []Kind{LNew, LNewfUnsafe, LStd, LUserPlain, LCtxCanceled}
 
 	MsgWrappers     = []Kind{WMessage, WWrap, WWrapf, WNewfW, WNewfWExtra}
 	AnnotWrappers   = []Kind{WStack, WHint, WDetail, WSafeDetails, WTelemetry, WDomain, WIssueLink, WTags, WAssertFail, WMark, WSecondary, WHTTP, WGrpc}
-	ForeignWrappers = []Kind{WPkgMsg, WPkgStack, WFmtPrefix, WFmtSuffix, WPathError, WLinkError, WSyscallError, WOpError, WUserPrefix, WUserFull, WUserFmt, WUserSafeFmt}
+	ForeignWrappers = []Kind{WPkgMsg, WPkgStack, WFmtPrefix, WFmtSuffix, WPathError, WLinkError, WSyscallError, WOpError, WUserPrefix, WUserFull, WUserFmt, WUserSafeFmt, WUserGlue}
 )
 
 func Cat(sets ...[]Kind) []Kind {
@@ -170,6 +172,16 @@ type UserPrefix struct {
 func (w *UserPrefix) Error() string { return w.Msg + ": " + w.Cause.Error() }
 func (w *UserPrefix) Unwrap() error { return w.Cause }
 
+// UserGlue puts its message directly in front of the cause's text (whatever
+// separator there is belongs to the message).
+type UserGlue struct {
+	Msg   string
+	Cause error
+}
+
+func (w *UserGlue) Error() string { return w.Msg + w.Cause.Error() }
+func (w *UserGlue) Unwrap() error { return w.Cause }
+
 // UserFull's message does not embed the cause's text.
 type UserFull struct {
 	Msg   string
@@ -232,6 +244,8 @@ type G struct {
 	Min       int
 	Max       int // max length of each symbolic string
 	Budget    int // remaining symbolic strings; afterwards concrete fillers are used
+	Pad       int // every drawn string is followed by this many concrete filler bytes
+	Slim      bool // representative tiers: the last branch of a multi-cause leaf is drawn from two kinds only
 	ctr       int
 }
 
@@ -272,7 +286,22 @@ func (g *G) str(name string, cls sym.Class) string {
 	if min == 0 {
 		min = 1
 	}
-	return g.V.Str(name, cls, min, g.Max)
+	s := g.V.Str(name, cls, min, g.Max)
+	if g.Pad > 0 {
+		pad := make([]byte, g.Pad)
+		for i := range pad {
+			pad[i] = 'x'
+		}
+		s += string(pad)
+	}
+	return s
+}
+
+func (g *G) lastBranch() []Kind {
+	if g.Slim {
+		return []Kind{LNew, LCtxCanceled}
+	}
+	return BranchLeaves
 }
 
 func (g *G) pick(name string, kinds []Kind) Kind {
@@ -360,21 +389,21 @@ func (g *G) LeafOf(name string, k Kind) *B {
 		b.Safe = in.Safe
 	case LJoin:
 		x := g.Leaf(name+".a", BranchLeaves)
-		y := g.Leaf(name+".b", BranchLeaves)
+		y := g.Leaf(name+".b", g.lastBranch())
 		b.Err, b.Text = errors.Join(x.Err, y.Err), x.Text+"\n"+y.Text
 		b.Multi = []*B{x, y}
 		b.Unsafe = append(append([]string{}, x.Unsafe...), y.Unsafe...)
 		b.Safe = append(append([]string{}, x.Safe...), y.Safe...)
 	case LStdJoin:
 		x := g.Leaf(name+".a", BranchLeaves)
-		y := g.Leaf(name+".b", BranchLeaves)
+		y := g.Leaf(name+".b", g.lastBranch())
 		b.Err, b.Text = stderrors.Join(x.Err, y.Err), x.Text+"\n"+y.Text
 		b.Multi = []*B{x, y}
 		b.Unsafe = append(append([]string{}, x.Unsafe...), y.Unsafe...)
 		b.Safe = append(append([]string{}, x.Safe...), y.Safe...)
 	case LFmtMulti:
 		x := g.Leaf(name+".a", BranchLeaves)
-		y := g.Leaf(name+".b", BranchLeaves)
+		y := g.Leaf(name+".b", g.lastBranch())
 		b.Err, b.Text = fmt.Errorf("%w - %w", x.Err, y.Err), x.Text+" - "+y.Text
 		b.Multi = []*B{x, y}
 		b.Unsafe = append(append([]string{}, x.Unsafe...), y.Unsafe...)
@@ -390,6 +419,17 @@ func (g *G) LeafOf(name string, k Kind) *B {
 		b.Err, b.Text = &UserMulti{Msg: "um", Errs: []error{x.Err}}, "um"
 		b.Multi = []*B{x}
 		b.Unsafe, b.Safe = x.Unsafe, x.Safe
+	case LJoinNested:
+		// a multi-cause node nested, below a wrapper, in a branch of another one
+		x := g.Leaf(name+".a", BranchLeaves)
+		z := g.Leaf(name+".c", g.lastBranch())
+		inner := errors.Wrap(errors.Join(errors.New("y"), z.Err), "n")
+		nb := &B{Err: inner, Text: "n: y\n" + z.Text, Kinds: []Kind{LJoin, WWrap}, Unsafe: z.Unsafe, Safe: z.Safe}
+		nb.Leaf = errors.UnwrapAll(inner)
+		b.Err, b.Text = errors.Join(x.Err, inner), x.Text+"\n"+nb.Text
+		b.Multi = []*B{x, nb}
+		b.Unsafe = append(append([]string{}, x.Unsafe...), z.Unsafe...)
+		b.Safe = append(append([]string{}, x.Safe...), z.Safe...)
 	default:
 		panic("gen: not a leaf kind " + k.String())
 	}
@@ -535,11 +575,19 @@ func (g *G) WrapOf(name string, c *B, k Kind) *B {
 		b.Err, b.Text = os.NewSyscallError("open", e), "open: "+c.Text
 	case WOpError:
 		m := g.StrU(name + ".m")
-		b.Err, b.Text = &net.OpError{Op: "dial", Net: "tcp", Addr: addr{m}, Err: e}, "dial tcp "+m+": "+c.Text
+		if g.V.Choice(name+".src", 2) == 1 {
+			b.Err, b.Text = &net.OpError{Op: "dial", Net: "tcp", Source: addr{"s"}, Addr: addr{m}, Err: e}, "dial tcp s->"+m+": "+c.Text
+		} else {
+			b.Err, b.Text = &net.OpError{Op: "dial", Net: "tcp", Addr: addr{m}, Err: e}, "dial tcp "+m+": "+c.Text
+		}
 		b.Unsafe = append(append([]string{}, c.Unsafe...), m)
 	case WUserPrefix:
 		m := g.StrU(name + ".m")
 		b.Err, b.Text = &UserPrefix{m, e}, m+": "+c.Text
+		b.Unsafe = append(append([]string{}, c.Unsafe...), m)
+	case WUserGlue:
+		m := g.StrU(name + ".m")
+		b.Err, b.Text = &UserGlue{m, e}, m+c.Text
 		b.Unsafe = append(append([]string{}, c.Unsafe...), m)
 	case WUserFull:
 		m := g.StrU(name + ".m")
@@ -599,8 +647,8 @@ func (g *G) BuildUpTo(name string, d int, leaves, wrappers []Kind) *B {
 // Representatives: one kind per behaviour class (used for the inner layers of
 // deeper recipes and for the quick tier).
 var (
-	RepLeaves   = []Kind{LNew, LNewfUnsafe, LStd, LCtxCanceled, LErrno, LUserPlain, LUserIs, LUserNonComparable, LHandled, LHandledMsg, LJoin, LStdJoin1, LFmtMulti}
-	RepWrappers = []Kind{WWrap, WWrapf, WNewfW, WNewfWExtra, WHint, WDetail, WTelemetry, WSafeDetails, WDomain, WTags, WMark, WSecondary, WGrpc, WIssueLink, WFmtSuffix, WUserFull, WUserPrefix, WPathError, WPkgMsg}
+	RepLeaves   = []Kind{LNew, LNewfUnsafe, LStd, LCtxCanceled, LErrno, LUserPlain, LUserIs, LUserNonComparable, LHandled, LHandledMsg, LJoin, LStdJoin1, LFmtMulti, LJoinNested, LPkg}
+	RepWrappers = []Kind{WWrap, WWrapf, WNewfW, WNewfWExtra, WHint, WDetail, WTelemetry, WSafeDetails, WDomain, WTags, WMark, WSecondary, WGrpc, WIssueLink, WFmtSuffix, WUserFull, WUserPrefix, WUserGlue, WPathError, WPkgMsg}
 )
 
 // BuildTiered draws a depth in 1..d, a leaf, inner wrappers and an outermost
